@@ -1,14 +1,15 @@
 """C07 – corrupted frames are never executed nor acknowledged: case generation."""
 import random
 from vf import Case
-from gen import constants
+from gen import constants, cloops
 from props import regpcommon as R
 
 ID = "C07"
 DRIVER = "drv_regp"
 HARNESS = "h_regp"
-GEN = [constants.gen]
+GEN = [constants.gen, cloops.regp_gen]
 TIE = ['Ufw.Tie.Regp']
+tie_modules = cloops.regp_tie_modules     # obligations over the helper functions of register-protocol.c the translator delivered
 RULE = ("serial channel, corpus of well-formed frames of every type (read/write requests and responses in both word sizes, error responses, "
         "meta) with payloads of 0..9 atoms: every single-bit flip of the whole frame, every two-bit flip inside the checksummed fields "
         "(thorough; quick: all pairs of a 3-frame sub-corpus plus 400 random pairs per frame), every burst of length 2..16 (first and last bit flipped, "
@@ -22,9 +23,15 @@ ASSUMPTIONS = [
     "bursts are contiguous in transmission order of a serial line (least significant bit of every octet first) - the order CRC-16/ARC is defined over",
     "two-bit errors are proved detected for bit distances up to 32 766 (the order of x modulo the generator polynomial is 32 767, kernel evaluation); beyond that distance - 4 095 octets - CRC-16/ARC does miss two-bit errors, the bound is part of the theorem",
     "bursts that touch both octet 11 (last octet of the block-size field) and the header checksum behind it are outside what the theorems cover and outside what the code can detect: recorded known finding with a proved witness (Ufw.Props.C07.burst_across_size_and_checksum_accepted)",
+    "tie A (helper functions): payload_plausible, req2resp, msem_size, memtype_valid, raw_with_hdcrc, raw_with_plcrc (and make_motv, regp_has_*, "
+    "address_min/max, reported in the evidence) are translated from clang's typed AST on every run (tools/gen/cloops.py -> Gen/RegpFns.lean: nested members as "
+    "flattened fields, switch as an if-chain, enumeration constants evaluated) and the first six are proved to return what the model's functions return "
+    "(Ufw.Tie.RegpFns.*: gen_payload_plausible - the size rule of reception, for all 2^32 block sizes and 2^64 payload sizes - gen_req2resp, gen_msem_size_*, "
+    "gen_memtype_valid, gen_raw_with_hdcrc/plcrc)",
     "lean/Ufw/Model/Regp.lean is a hand transcription of parse_header / payload_plausible / check_payload / regp_recv / regp_process tied to the code by the correspondence run; Spec.Regp.classify is the independent reading of doc/regp.txt",
 ]
-TRUSTED = ["correspondence harness harness/h_regp.c + tools/lib/vf.py (verdict, backend call log, reply octets)"]
+TRUSTED = ["translator tools/gen/cloops.py + prelude lean/Ufw/Tie/CPre.lean (helper functions of register-protocol.c)",
+           "correspondence harness harness/h_regp.c + tools/lib/vf.py (verdict, backend call log, reply octets)"]
 DESIGN_REF = "DESIGN.md section 0.2 (as built) and section 8, C07"
 TECHNIQUE = ("Lean 4 proofs: the model's verdict on an arbitrary octet string equals the independent reading of the document (classify); CRC-16/ARC is linear, its "
              "step is injective, so every error confined to 16 consecutive bits and every detected-class error in a checksummed field changes the checksum; a frame "
